@@ -136,8 +136,8 @@ def match_array(tokens, shape, sigma, tau):
     return tuple(mid) == tuple(target)
 
 
-# annotation model nodes: ("arr", dims_str) | ("union", (node, ...)) | ("tree", node)
-# values: arr/union -> shape tuple ; tree -> tuple of leaf values
+# annotation model nodes: ("arr", dims_str) | ("union", (node, ...)) | ("tree", leaf node, structure name or None)
+# values: arr/union -> shape tuple ; tree -> (structure key, tuple of leaf values)
 
 
 def holds(node, value, sigma, tau):
@@ -147,8 +147,21 @@ def holds(node, value, sigma, tau):
     if k == "union":
         return any(holds(alt, value, sigma, tau) for alt in node[1])
     if k == "tree":
-        return all(holds(node[1], leaf, sigma, tau) for leaf in value)
+        return all(holds(node[1], leaf, sigma, tau) for leaf in value[1])
     raise AssertionError(node)
+
+
+def structure_bindings(constraints):
+    """structure name -> set of structure keys demanded by the (top-level) PyTree annotations."""
+    out = {}
+    for node, value in constraints:
+        if node[0] == "tree" and node[2] is not None:
+            out.setdefault(node[2], set()).add(value[0])
+    return out
+
+
+def structures_consistent(constraints):
+    return all(len(v) == 1 for v in structure_bindings(constraints).values())
 
 
 def node_names(node, singles, variadics):
@@ -192,9 +205,10 @@ def satisfiable(constraints):
     except KeyError:
         pass
     r = False
-    for _ in solutions(constraints):
-        r = True
-        break
+    if structures_consistent(constraints):
+        for _ in solutions(constraints):
+            r = True
+            break
     if len(_SAT_CACHE) > 400000:
         _SAT_CACHE.clear()
     _SAT_CACHE[key] = r
@@ -478,8 +492,8 @@ def make_specs(tier, seed):
             specs.append(dict(params=(t0, t1), ret=tr, cases=cases, perms="all", dataclass=(tr == "..."), stratum="A"))
     # stratum B (sampled): <=2-token dims, 1..3 (thorough: 1..4) parameters, shapes of rank 0..2
     if tier == "quick":
-        plan = {1: 60, 2: 130, 3: 110}
-        n_guided, n_random, max_perms = 3, 1, 3
+        plan = {1: 80, 2: 280, 3: 280}
+        n_guided, n_random, max_perms = 3, 2, 3
     else:
         plan = {1: 700, 2: 2200, 3: 2200, 4: 900}
         n_guided, n_random, max_perms = 5, 2, 6
@@ -634,7 +648,8 @@ def run_spec(spec):
     if spec["dataclass"] and nontrivial_dc:
         for pcase in exp_dc:
             keys.append(("dataclass", params, pcase))
-    return dict(evals=evals, keys=keys, failures=failures, sample=sample)
+    n_acc = sum(1 for v in exp_fn.values() if v)
+    return dict(evals=evals, keys=keys, failures=failures, sample=sample, n_accept=n_acc, n_reject=len(exp_fn) - n_acc)
 
 
 def _worker(chunk):
@@ -691,11 +706,16 @@ def main():
     results = run_parallel(_worker, specs, a.repo, procs)
     tally = _common.Tally()
     failures = []
+    n_acc = n_rej = 0
+    sampled_arity = set()
     for spec, r in zip(specs, results):
         tally.evaluations += r["evals"]
         tally.distinct.update(r["keys"])
         failures.extend(r["failures"])
-        if r["sample"] is not None and len(tally.samples) < 5 and spec["stratum"] == "B":
+        n_acc += r["n_accept"]
+        n_rej += r["n_reject"]
+        if r["sample"] is not None and len(tally.samples) < 5 and spec["stratum"] == "B" and len(spec["params"]) not in sampled_arity:
+            sampled_arity.add(len(spec["params"]))
             tally.samples.append(r["sample"])
     merge_failures(tally, failures)
     nA = sum(1 for s in specs if s["stratum"] == "A")
@@ -732,7 +752,8 @@ def main():
         "A (function, shapes) case counts as distinct/non-trivial when some axis name or '*name' occurs in >=2 of its annotations or it has a symbolic axis; "
         "re-runs of it under other orders/checkers/spellings/passing are evaluations, not new cases."
     )
-    _common.emit(tally, bound=bound, rule=rule, exhaustive=False, wall_s=round(time.time() - a.t0, 1), processes=procs)
+    _common.emit(tally, bound=bound, rule=rule, exhaustive=False, wall_s=round(time.time() - a.t0, 1), processes=procs,
+                 oracle_accept_cases=n_acc, oracle_reject_cases=n_rej)
 
 
 if __name__ == "__main__":
